@@ -1,5 +1,7 @@
 package flow
 
+import "github.com/jawher/mow.cli/internal/verifhook"
+
 /*
 ExitCode is a value used in a call to panic to signify that code execution should be stopped,
 before/after listeners executed and finally that the app whould exit with the provided exit code
@@ -22,6 +24,7 @@ type Step struct {
 Run call the code block of the step, moves to the success step if the call went ok, opr the the error step otherwise
 */
 func (s *Step) Run(p interface{}) {
+	verifhook.Point("flow.Run")
 	s.callDo(p)
 
 	switch {
@@ -52,5 +55,6 @@ func (s *Step) callDo(p interface{}) {
 			s.Error.Run(e)
 		}
 	}()
+	verifhook.Point("flow.do")
 	s.Do()
 }
